@@ -2,7 +2,7 @@
    harness/go/agreement/zz_verif_c02_test.go (real Service.mainLoop + persistence loop + crash DB,
    emulated demuxLoop, enumerated crash points).
 
-     (c02 params round0 (own ...) (op ...))
+     (c02 params round0 (own ...) (op ...) plan_tag)        plan_tag: name of the crash plan (not used)
      op = (start restored (action ...)) | (ev src event (action ...)) | (do (vote ...))
         | (write ok ((rnd per step) (action ...)) digest) | (write ok (nodisk)) | (crash)
 
@@ -98,7 +98,7 @@ Record c02_case := mkC02 { k_pm : params; k_r0 : N; k_own : list N; k_ops : list
 
 Definition p_c02 (t : term) : option c02_case :=
   match t with
-  | TL [TS "c02"; pm; r0; TL own; TL ops] =>
+  | TL [TS "c02"; pm; r0; TL own; TL ops; TS _] =>
       olet pm <- p_params pm; olet r0 <- as_N r0; olet own <- map_opt as_N own; olet ops <- map_opt p_op ops;
       Some (mkC02 pm r0 own ops)
   | _ => None
@@ -349,7 +349,9 @@ Definition check (t : term) : term :=
       let corr := r_corr r &&
                   list_eqb cv_eqb (f_released mstate ext_event cvote (r_f r)) (o_rel o) in
       let nontrivial := (0 <? o_crashes o) && negb (match o_rel o with [] => true | _ => false end) in
-      if o_f6 o then v_known "c02_restored_attest_persists_empty_state" (o_why o)
-      else if negb (o_ok o && no_conflict_b (o_rel o)) then v_viol (o_why o)
+      let detail := TL [o_why o; TS (if no_conflict_b (o_rel o) then "no_conflicting_votes_released"
+                                     else "CONFLICTING_VOTES_RELEASED")] in
+      if o_f6 o then v_known "c02_restored_attest_persists_empty_state" detail
+      else if negb (o_ok o && no_conflict_b (o_rel o)) then v_viol detail
       else verdict true corr nontrivial (r_detail r)
   end.
